@@ -41,12 +41,16 @@ type poolCall struct {
 	Msg     string
 	Thru    bool // WriteThru with an explicit timestamp (bytes comparable exactly)
 	ArgKind int
+	Blank   bool // a blank Println(): no arguments at all
 }
 
 type poolEnv struct {
 	loggers []*slog.Entry
 	shared  slog.Attr // one group value shared by calls and by loggers
 	shared2 slog.Attr
+	more    []slog.Attr // further shared groups, built in every way the API offers
+	sharedV slog.Attrs  // an Attrs value shared as a plain attribute VALUE
+	slow    bool
 	ts      time.Time
 	rec     *poolRecorder
 }
@@ -56,7 +60,15 @@ type poolRecorder struct {
 	payloads [][]byte
 }
 
+var poolSlow int32 // the recorder yields inside Write, keeping the caller's PrintCtx busy for longer
+
 func (r *poolRecorder) Write(p []byte) (int, error) {
+	if atomic.LoadInt32(&poolSlow) != 0 {
+		runtime.Gosched()
+		if len(p)%3 == 0 {
+			time.Sleep(20 * time.Microsecond)
+		}
+	}
 	r.mu.Lock()
 	r.payloads = append(r.payloads, append([]byte(nil), p...))
 	r.mu.Unlock()
@@ -68,6 +80,16 @@ func newPoolEnv(nLoggers int) *poolEnv {
 	// deliberately unsorted members with a duplicate key: printing has to sort and de-duplicate them
 	e.shared = slog.Group("shared", "zeta", 1, "alpha", 2, "mid", 3, "alpha", 4, "beta", 5)
 	e.shared2 = slog.NewGroupedAttr("lg", slog.Int("y", 1), slog.Int("x", 2), slog.Group("inner", "q", 1, "p", 2))
+	e.more = []slog.Attr{
+		// members already in key order, with a duplicate key (nothing to move, something to drop)
+		slog.NewGroupedAttr("sorteddup", slog.Int("a", 1), slog.Int("b", 2), slog.Int("b", 3), slog.Int("c", 4)),
+		slog.NewGroupedAttr("sorteduniq", slog.Int("a", 1), slog.Int("b", 2), slog.Int("c", 3)),
+		slog.NewGroupedAttr("unsorted", slog.Int("z", 1), slog.Int("y", 2), slog.Int("x", 3)),
+		slog.NewGroupedAttrEasy("easy", "m", 1, "k", 2, "m", 3),
+		slog.Group("nested", "q", 1, slog.NewGroupedAttr("in", slog.Int("b", 1), slog.Int("a", 2), slog.Int("a", 3))),
+		slog.NewGroupedAttr("one", slog.Int("only", 1)),
+	}
+	e.sharedV = slog.Attrs{slog.Int("vb", 1), slog.Int("va", 2), slog.Int("va", 3)}
 	root := slog.New("root").Root()
 	root.SetWriter(e.rec).SetErrorWriter(e.rec).SetLevel(slog.InfoLevel).SetColorMode(false)
 	root.SetAttrs(slog.Int("rootattr", 1), e.shared2)
@@ -85,6 +107,8 @@ func newPoolEnv(nLoggers int) *poolEnv {
 		}
 		if i%2 == 1 {
 			c.SetAttrs(slog.Int(fmt.Sprintf("la%d", i), i), e.shared)
+		} else {
+			c.SetAttrs(e.more[i%len(e.more)])
 		}
 		e.loggers = append(e.loggers, c)
 	}
@@ -103,6 +127,12 @@ func (e *poolEnv) args(c *poolCall) []any {
 		return []any{"err", errors.New("boom " + strconv.Itoa(c.ID)), e.shared}
 	case 4:
 		return []any{slog.Group("pg", "b", 2, "a", 1), e.shared2, "z", 1.5}
+	case 6, 7, 8, 9, 10, 11:
+		return []any{e.more[c.ArgKind-6], "id", c.ID}
+	case 12:
+		return []any{e.more[0], e.more[3], e.more[4], e.shared}
+	case 13:
+		return []any{slog.Any("asvalue", e.sharedV), e.more[2]}
 	}
 	return []any{"dur", time.Duration(c.ID) * time.Millisecond, "when", e.ts, "b", []byte("x")}
 }
@@ -111,6 +141,14 @@ func (e *poolEnv) args(c *poolCall) []any {
 // concurrent call and for its sequential re-issue.
 func (e *poolEnv) issue(c *poolCall) {
 	l := e.loggers[c.Logger]
+	if c.Blank {
+		if c.Msg == "" {
+			l.Println()
+		} else {
+			l.Println(c.Msg)
+		}
+		return
+	}
 	if c.Thru {
 		var attrs slog.Attrs
 		if a := e.args(c); len(a) > 0 {
@@ -166,10 +204,13 @@ func poolStress(args []string) int {
 	for g := 0; g < G; g++ {
 		for c := 0; c < N; c++ {
 			pc := &poolCall{ID: len(calls) + 1, G: g + 1, C: c + 1, Logger: rng.Intn(nLoggers), Sev: sevs[rng.Intn(len(sevs))],
-				Thru: rng.Intn(2) == 0, ArgKind: rng.Intn(6)}
+				Thru: rng.Intn(2) == 0, ArgKind: rng.Intn(14)}
 			pc.Msg = fmt.Sprintf("call#%06d#", pc.ID)
 			if rng.Intn(4) == 0 {
 				pc.Msg += "\nsecond line\nthird"
+			}
+			if rng.Intn(12) == 0 { // a blank Print/Println: delivered as a single newline
+				pc.Sev, pc.Msg, pc.Blank, pc.Thru = slog.AlwaysLevel, []string{"", " ", "\n"}[rng.Intn(3)], true, false
 			}
 			calls = append(calls, pc)
 			perG[g] = append(perG[g], pc)
@@ -183,16 +224,38 @@ func poolStress(args []string) int {
 	objID := map[uintptr]int{}
 	gidOf := map[int]int{} // runtime goroutine id -> 1..G
 	sharedPtrs := map[uintptr]bool{}
-	for _, a := range []slog.Attr{env.shared, env.shared2} {
-		if items, ok := a.Value().(slog.Attrs); ok && len(items) > 0 {
-			sharedPtrs[uintptr(unsafe.Pointer(unsafe.SliceData(items)))] = true
+	var addShared func(items slog.Attrs)
+	addShared = func(items slog.Attrs) {
+		if len(items) == 0 {
+			return
 		}
+		sharedPtrs[uintptr(unsafe.Pointer(unsafe.SliceData(items)))] = true
+		for _, m := range items {
+			if m == nil {
+				continue
+			}
+			if sub, ok := m.Value().(slog.Attrs); ok {
+				addShared(sub)
+			}
+		}
+	}
+	for _, a := range append([]slog.Attr{env.shared, env.shared2}, env.more...) {
+		if items, ok := a.Value().(slog.Attrs); ok {
+			addShared(items)
+		}
+	}
+	addShared(env.sharedV)
+	if mode == "slow" || mode == "barrier" {
+		atomic.StoreInt32(&poolSlow, 1)
 	}
 	held := map[int]uintptr{} // goroutine -> attrs slice it holds
 	var barrierMu sync.Mutex
 	barrier := map[uintptr]chan struct{}{}
 	waiting := map[uintptr]int{}
-	if mode != "free" {
+	if mode == "free-slow" {
+		atomic.StoreInt32(&poolSlow, 1)
+	}
+	if mode != "free" && mode != "free-slow" {
 		slog.VerifHook = func(point string, a, b uintptr) {
 			g := goid()
 			evMu.Lock()
@@ -279,7 +342,13 @@ func poolStress(args []string) int {
 	reCall := regexp.MustCompile(`call#(\d{6})#`)
 	byID := map[int][][]byte{}
 	torn := 0
+	blanks := 0
+	atomic.StoreInt32(&poolSlow, 0)
 	for _, p := range concurrent {
+		if string(p) == "\n" {
+			blanks++
+			continue
+		}
 		ms := reCall.FindAllSubmatch(p, -1)
 		ids := map[string]bool{}
 		for _, m := range ms {
@@ -293,10 +362,17 @@ func poolStress(args []string) int {
 		id, _ := strconv.Atoi(string(ms[0][1]))
 		byID[id] = append(byID[id], p)
 	}
+	wantBlanks := 0
 	for _, c := range calls {
 		env.rec.payloads = nil
 		env.issue(c)
 		ref := env.rec.payloads
+		if c.Blank {
+			if len(ref) == 1 && string(ref[0]) == "\n" {
+				wantBlanks++
+			}
+			continue
+		}
 		out.emit(map[string]any{"ev": "call", "call": c.ID, "admitted": len(ref) > 0, "thru": c.Thru})
 		for _, p := range byID[c.ID] {
 			same := false
@@ -317,6 +393,7 @@ func poolStress(args []string) int {
 			out.emit(rec)
 		}
 	}
+	out.emit(map[string]any{"ev": "blank", "got": blanks, "want": wantBlanks})
 	out.emit(map[string]any{"ev": "end", "calls": len(calls), "payloads": len(concurrent), "torn": torn, "hook_events": len(events)})
 	return 0
 }
